@@ -428,6 +428,12 @@ def check_exact(res, trk, cfg, vias=('to_mask', 'kernel')):
     if 'to_mask' in vias:
         res.axis('via', 'to_mask')
         try:
+            if max(cfg.get('r', 0), cfg.get('rx', 0), cfg.get('ry', 0)) <= 10.5:
+                # an earlier mask of the same geometry, scribbled on by its owner, must not show in a later one
+                # (masks are the caller's own arrays)
+                m0 = _build(cfg).to_mask(mode='exact')
+                if m0.data.flags.writeable:
+                    m0.data[...] = -7.0
             m = _build(cfg).to_mask(mode='exact')
         except Exception as exc:
             res.violation(ID, 'unexpected_exception', _case(cfg, 'to_mask'), f"to_mask('exact') raised {type(exc).__name__}: {exc}")
